@@ -437,10 +437,11 @@ class SnowflakeAdapter(BaseAdapter):
             if not rel_columns:
                 continue
 
-            # Use first column pair for foreign key
-            first_col = rel_columns[0]
-            left_column = first_col.get("left_column")
-            right_column = first_col.get("right_column")
+            # One column pair for a simple key, all pairs for a composite key
+            left_columns = [col.get("left_column") for col in rel_columns]
+            right_columns = [col.get("right_column") for col in rel_columns]
+            left_column = left_columns[0] if len(left_columns) == 1 else left_columns
+            right_column = right_columns[0] if len(right_columns) == 1 else right_columns
 
             # In Snowflake, left_table is the "many" side, right_table is the "one" side
             # Add relationship to left_table pointing to right_table
@@ -486,7 +487,7 @@ class SnowflakeAdapter(BaseAdapter):
         for model in resolved_models.values():
             for rel in model.relationships:
                 if rel.type in ("many_to_one", "one_to_one"):
-                    rel_def = self._export_relationship(model, rel)
+                    rel_def = self._export_relationship(model, rel, resolved_models.get(rel.name))
                     semantic_model["relationships"].append(rel_def)
 
         # Remove empty relationships list
@@ -712,24 +713,29 @@ class SnowflakeAdapter(BaseAdapter):
 
         return filter_def
 
-    def _export_relationship(self, model: Model, rel: Relationship) -> dict:
+    def _export_relationship(self, model: Model, rel: Relationship, related_model: Model | None = None) -> dict:
         """Export relationship to Snowflake relationship format.
 
         Args:
             model: Model containing the relationship
             rel: Relationship to export
+            related_model: The model the relationship points to, if it is part of the export
 
         Returns:
             Relationship definition dictionary
         """
+        left_columns = rel.foreign_key_columns
+        # A many_to_one relationship that names no key joins on the related model's primary key
+        if rel.primary_key is None and rel.type == "many_to_one" and related_model is not None:
+            right_columns = related_model.primary_key_columns
+        else:
+            right_columns = rel.primary_key_columns
+
         rel_def = {
             "left_table": model.name,
             "right_table": rel.name,
             "relationship_columns": [
-                {
-                    "left_column": rel.sql_expr,
-                    "right_column": rel.related_key,
-                }
+                {"left_column": left, "right_column": right} for left, right in zip(left_columns, right_columns)
             ],
             "relationship_type": rel.type,
             "join_type": "left_outer",
